@@ -99,11 +99,110 @@ func runC19YAML(seed int64) string {
 	return "same ok" + tag
 }
 
+// runC19XML: the same for an XML workbook with several root elements (one per worksheet, any order)
+func runC19XML(seed int64) string {
+	r := rand.New(rand.NewSource(seed))
+	uniq := fmt.Sprintf("%d", seed)
+	sheets := []string{"HeroConf" + uniq, "ItemConf" + uniq, "ZoneConf" + uniq}[:2+r.Intn(2)]
+	var sb strings.Builder
+	sb.WriteString("<?xml version=\"1.0\" encoding=\"UTF-8\" ?>\n<!--\n<@TABLEAU>\n")
+	for _, s := range sheets {
+		sb.WriteString("    <Item Sheet=\"" + s + "\" />\n")
+	}
+	sb.WriteString("</@TABLEAU>\n\n")
+	for _, s := range sheets {
+		sb.WriteString("<" + s + ">\n    <Item ID=\"[Item]uint32\" Name=\"string\" />\n    <Title>string</Title>\n</" + s + ">\n\n")
+	}
+	sb.WriteString("-->\n\n")
+	order := r.Perm(len(sheets))
+	tags := []string{"xml"}
+	corrupt := r.Intn(5) == 0
+	for _, k := range order {
+		s := sheets[k]
+		sb.WriteString("<" + s + ">\n")
+		for e := 0; e < 1+r.Intn(3); e++ {
+			id := fmt.Sprintf("%d", 10*k+e+1)
+			if corrupt && k == order[len(order)-1] && e == 0 {
+				id = "abc"
+			}
+			sb.WriteString(fmt.Sprintf("    <Item ID=\"%s\" Name=\"n%d\" />\n", id, e))
+		}
+		sb.WriteString(fmt.Sprintf("    <Title>t%d</Title>\n</%s>\n\n", k, s))
+	}
+	if corrupt {
+		tags = append(tags, "corrupt")
+	}
+	w := newWorkspace()
+	defer w.cleanup()
+	if err := os.WriteFile(filepath.Join(w.In, "Doc"+uniq+".xml"), []byte(sb.String()), 0o644); err != nil {
+		panic(err)
+	}
+	tag := " [" + strings.Join(tags, ",") + "]"
+	ro := runOpts{Formats: []format.Format{format.XML}, Package: "px" + uniq}
+	if err := w.genProto(ro); err != nil {
+		if os.Getenv("VERIF_DEBUG") != "" {
+			println("PROTOERR", err.Error(), sb.String())
+		}
+		return "same protoerr" + tag
+	}
+	confErr := w.genConf(ro)
+	descs, err := parseProtoDir(w.Proto)
+	if err != nil {
+		return "same protoinvalid" + tag
+	}
+	for _, s := range sheets {
+		md := descs[ro.pkg()+"."+s]
+		if md == nil {
+			return "same nomessage" + tag
+		}
+		fromOrigin := dynamicpb.NewMessage(md.UnwrapMessage())
+		originErr := load.Load(fromOrigin, w.In, format.XML)
+		if confErr != nil {
+			// one bad sheet fails the whole conversion; loading THAT sheet from origin must fail alike
+			continue
+		}
+		if originErr != nil {
+			return fmt.Sprintf("differ error-parity sheet=%s conf=ok origin=%s%s", strings.TrimSuffix(s, uniq), errCore(originErr), tag)
+		}
+		fromConf := dynamicpb.NewMessage(md.UnwrapMessage())
+		if err := load.Load(fromConf, w.Conf, format.JSON); err != nil {
+			return "differ conf-unloadable" + tag
+		}
+		if !proto.Equal(fromOrigin, fromConf) {
+			return "differ message sheet=" + strings.TrimSuffix(s, uniq) + tag
+		}
+	}
+	if confErr != nil {
+		// the spoilt sheet: origin loading reports the same error
+		bad := sheets[order[len(order)-1]]
+		md := descs[ro.pkg()+"."+bad]
+		fromOrigin := dynamicpb.NewMessage(md.UnwrapMessage())
+		originErr := load.Load(fromOrigin, w.In, format.XML)
+		if originErr == nil {
+			return "differ error-parity conf=" + errCore(confErr) + " origin=ok" + tag
+		}
+		if errCore(confErr) != errCore(originErr) {
+			return "differ error-desc conf=" + errCore(confErr) + " origin=" + errCore(originErr) + tag
+		}
+		return "same err" + tag
+	}
+	return "same ok" + tag
+}
+
 func init() {
 	regStream("e2e.C19.yaml", func(r *rand.Rand, n int, emit func(string, ...string)) {
 		for i := 0; i < n; i++ {
-			emit("c19.yaml", itoa(r.Int63n(1<<40)))
+			if i%3 == 2 {
+				emit("c19.yaml", itoa(r.Int63n(1<<40)), "xml")
+			} else {
+				emit("c19.yaml", itoa(r.Int63n(1<<40)))
+			}
 		}
 	})
-	regImpl("c19.yaml", func(a []string) string { return runC19YAML(mustInt(a[0])) })
+	regImpl("c19.yaml", func(a []string) string {
+		if len(a) > 1 && a[1] == "xml" {
+			return runC19XML(mustInt(a[0]))
+		}
+		return runC19YAML(mustInt(a[0]))
+	})
 }
